@@ -138,6 +138,14 @@ CHECKS.update({
   "DESIGN.md 4 C16"),
 })
 
+CHECKS.update({
+ "C12": ("model_checking", "lockx",
+  "stateless exhaustive interleaving exploration of the real device.SetLock under a cooperative scheduler (scheduling points inserted before os.Mkdir, os.OpenFile, syscall.Flock by a build overlay), real file system and real flock; plus process-level enumeration of holder phases x contender variants x release/kill with the real binaries",
+  "All interleavings of 2 and 3 contenders (3400 schedules, 30k scheduled steps) are executed; the invariant 'exactly one holder per device, losers fail at once with the right message, nobody blocks' is checked on each. Process level: see rule text.",
+  "Atomicity of the three system calls themselves; Linux flock on a local file system.",
+  "DESIGN.md 4 C12"),
+})
+
 NOT_YET = "check not built yet in this round (design in DESIGN.md section 4); no technique switch intended"
 
 def main():
